@@ -1,7 +1,7 @@
 (** Soundness of the validator: code it accepts simulates the reference semantics. *)
 From Coq Require Import List ZArith Bool Arith Lia Floats.SpecFloat.
 From RB Require Import Generated.Tables Val.Variant Val.Arith2 Lang.Ast Lang.Sem VM.Instr VM.Gen VM.Machine VM.GenProofs
-                       VM.Loops VM.ForLoops VM.SelectCase VM.Branch VM.DoLoops VM.Validate RT.Printer.
+                       VM.Loops VM.ForLoops VM.SelectCase VM.ReadData VM.Branch VM.DoLoops VM.Validate RT.Printer.
 Import ListNotations.
 Local Open Scope nat_scope.
 
@@ -181,7 +181,13 @@ Proof.
       destruct (Validate.check_block k code t (pc0 + n1)) as [m|] eqn:E2; [|discriminate].
       inversion Hb; subst. apply simulates_cons; [apply IH; exact E1|apply IHl; exact E2]. }
   cbn [check_stmt] in H. fold (Validate.check_block k code) in H.
-  destruct s as [p n e|p args|p c thn elifs els|p c body|p top until c body|p v lo hi step body|p e cases els]; try discriminate.
+  destruct s as [p n e|p args|p c thn elifs els|p c body|p top until c body|p v lo hi step body|p e cases els|p items|p targets]; try discriminate.
+  8:{ (* DATA *)
+      destruct (slice_is code pc (data_code p items)) eqn:E; [|discriminate]. inversion H; subst len.
+      apply (data_correct num_text is_negative). apply slice_is_code_at. exact E. }
+  8:{ (* READ *)
+      destruct (slice_is code pc (read_code p targets)) eqn:E; [|discriminate]. inversion H; subst len.
+      apply (read_correct num_text is_negative). apply slice_is_code_at. exact E. }
   7:{ (* SELECT CASE *)
       destruct (sel_pass1 (Validate.check_block k code) p cases (pc + length (gen_expr e) + 1)) as [[cs4 last]|] eqn:E1; [|discriminate].
       destruct els as [be|].
@@ -326,7 +332,7 @@ Qed.
 Lemma run_dims code : forall dims pc0 r t vs ps e sc,
   code_at code pc0 (dims_code dims) ->
   exists r', stepn (length (dims_code dims)) code (mk_m pc0 (r :: t) vs ps e sc false)
-             = MRunning (mk_m (pc0 + length (dims_code dims)) (r' :: t) vs ps (dims_env_m dims e) sc false).
+             = MRunning (mk_m (pc0 + length (dims_code dims)) (r' :: t) vs ps (declare dims e) sc false).
 Proof.
   induction dims as [|d dims IH]; intros pc0 r t vs ps e sc Hc.
   - exists r. cbn. do 2 f_equal. lia.
@@ -344,17 +350,17 @@ Proof.
     unfold next. cbn [rstack Machine.pc vstack pstack mvars mscreen mskip].
     erewrite (ForLoops.stepn_step num_text is_negative) by (unfold Machine.step; cbn [Machine.pc]; rewrite N2; reflexivity).
     unfold next, cur. cbn [rstack ra Machine.pc vstack pstack mvars mscreen mskip].
-    replace (S (S (S pc0))) with (pc0 + 3) by lia. rewrite Hn. f_equal. change (dims_env_m (d :: dims) e) with (dims_env_m dims (assign (touch e (fst d)) (fst d) (default_of (snd (fst d))))).
+    replace (S (S (S pc0))) with (pc0 + 3) by lia. rewrite Hn. f_equal. change (declare (d :: dims) e) with (declare dims (assign (touch e (fst d)) (fst d) (default_of (snd (fst d))))).
     f_equal. lia.
 Qed.
 
 (** ** Translation validation of whole programs: an instruction list accepted by [check_program]
     behaves as the reference semantics of the program prescribe - for every fuel, i.e. for runs of
-    any length: same end (normal, or the same error at the same position), same screen, and on a
-    normal end the same variables. *)
+    any length: same end (normal, or the same error at the same position), same screen and DATA
+    queue, and on a normal end the same variables. *)
 Theorem check_program_sound k dims p code : check_program k dims p code = true ->
   forall fuel,
-  match Sem.exec_program num_text is_negative fuel p (mk_state (init_env dims) io0) with
+  match Sem.exec_main num_text is_negative fuel dims p with
   | Done st' => exists n s', (forall m, n <= m -> Machine.run num_text is_negative m code m0 = MHalted s') /\
                              mvars s' = vars st' /\ of_mio (mscreen s') = screen st'
   | Failed x q st' => exists n s', (forall m, n <= m -> Machine.run num_text is_negative m code m0 = MError x q s') /\ of_mio (mscreen s') = screen st'
@@ -363,25 +369,37 @@ Theorem check_program_sound k dims p code : check_program k dims p code = true -
   end.
 Proof.
   unfold check_program. intros H fuel.
-  apply andb_true_iff in H. destruct H as [H Hb]. apply andb_true_iff in H. destruct H as [Hd He].
-  destruct (env_eq_dec (dims_env_m dims []) (init_env dims)) as [Eenv|]; [|discriminate].
-  destruct (Validate.check_block k code p (length (dims_code dims))) as [len|] eqn:Eb; [|discriminate].
-  apply instr_at_nth in Hb. apply slice_is_code_at in Hd.
-  destruct (run_dims code dims 0 regs0 [] [] [] [] (to_mio io0) Hd) as [r1 Hn]. change (mk_m 0 [regs0] [] [] [] (to_mio io0) false) with m0 in Hn.
-  rewrite Eenv in Hn. cbn [Nat.add] in Hn.
+  destruct (Validate.check_block k code (filter is_data p) 0) as [ld|] eqn:Ed; [|discriminate].
+  apply andb_true_iff in H. destruct H as [Hd Hb].
   set (n0 := length (dims_code dims)) in *.
-  pose proof (check_block_sound k code p n0 len Eb fuel (mk_state (init_env dims) io0) r1 [] [] []) as S.
-  rewrite exec_program_blockf.
-  change (mk_m n0 [r1] [] [] (init_env dims) (to_mio io0) false) with (boundary n0 r1 [] [] [] (mk_state (init_env dims) io0)) in Hn.
-  destruct (blockf fuel p (mk_state (init_env dims) io0)) as [st'|x q st'|q st'|].
-  - destruct S as (n & r2 & Hs). exists (n0 + n + 1), (boundary (n0 + len) r2 [] [] [] st'). split; [|split; [reflexivity|apply of_to_mio]].
-    intros m Hm. apply (run_stepn_stop num_text is_negative (n0 + n + 1)); [|exact I|exact Hm].
-    rewrite (stepn_add _ _ (n0 + n) 1), (stepn_add _ _ n0 n), Hn, Hs. rewrite stepn_one. unfold Machine.step, boundary. cbn [Machine.pc].
-    rewrite Hb. reflexivity.
-  - destruct S as (n & s' & Hs & Hsc). exists (n0 + n), s'. split; [|exact Hsc].
-    intros m Hm. apply (run_stepn_stop num_text is_negative (n0 + n)); [|exact I|exact Hm]. rewrite stepn_add, Hn. exact Hs.
-  - destruct S as (n & s' & Hs & Hsc). exists (n0 + n), s'. split; [|exact Hsc].
-    intros m Hm. apply (run_stepn_stop num_text is_negative (n0 + n)); [|exact I|exact Hm]. rewrite stepn_add, Hn. exact Hs.
+  destruct (Validate.check_block k code (filter (fun s => negb (is_data s)) p) (ld + n0)) as [len|] eqn:Eb; [|discriminate].
+  apply instr_at_nth in Hb. apply slice_is_code_at in Hd.
+  unfold Sem.exec_main. rewrite !exec_program_blockf.
+  pose proof (check_block_sound k code _ 0 ld Ed fuel (mk_state [] io0) regs0 [] [] []) as SD.
+  change (boundary 0 regs0 [] [] [] (mk_state [] io0)) with m0 in SD.
+  destruct (blockf fuel (filter is_data p) (mk_state [] io0)) as [sd|x q sd|q sd|].
+  2:{ destruct SD as (n & s' & Hs & Hsc). exists n, s'. split; [|exact Hsc].
+      intros m Hm. apply (run_stepn_stop num_text is_negative n); [exact Hs|exact I|exact Hm]. }
+  2:{ destruct SD as (n & s' & Hs & Hsc). exists n, s'. split; [|exact Hsc].
+      intros m Hm. apply (run_stepn_stop num_text is_negative n); [exact Hs|exact I|exact Hm]. }
+  2:{ exact I. }
+  destruct SD as (nd & rd0 & SD). cbn [Nat.add] in SD. rewrite exec_program_blockf.
+  destruct (run_dims code dims ld rd0 [] [] [] (vars sd) (to_mio (screen sd)) Hd) as [r1 Hn]. fold n0 in Hn.
+  change (mk_m ld [rd0] [] [] (vars sd) (to_mio (screen sd)) false) with (boundary ld rd0 [] [] [] sd) in Hn.
+  change (mk_m (ld + n0) [r1] [] [] (declare dims (vars sd)) (to_mio (screen sd)) false)
+    with (boundary (ld + n0) r1 [] [] [] (mk_state (declare dims (vars sd)) (screen sd))) in Hn.
+  pose proof (check_block_sound k code _ (ld + n0) len Eb fuel (mk_state (declare dims (vars sd)) (screen sd)) r1 [] [] []) as S.
+  destruct (blockf fuel (filter (fun s => negb (is_data s)) p) (mk_state (declare dims (vars sd)) (screen sd))) as [st'|x q st'|q st'|].
+  - destruct S as (n & r2 & Hs). exists (nd + n0 + n + 1), (boundary (ld + n0 + len) r2 [] [] [] st'). split; [|split; [reflexivity|apply of_to_mio]].
+    intros m Hm. apply (run_stepn_stop num_text is_negative (nd + n0 + n + 1)); [|exact I|exact Hm].
+    rewrite (stepn_add _ _ (nd + n0 + n) 1), (stepn_add _ _ (nd + n0) n), (stepn_add _ _ nd n0), SD, Hn, Hs.
+    rewrite stepn_one. unfold Machine.step, boundary. cbn [Machine.pc]. rewrite Hb. reflexivity.
+  - destruct S as (n & s' & Hs & Hsc). exists (nd + n0 + n), s'. split; [|exact Hsc].
+    intros m Hm. apply (run_stepn_stop num_text is_negative (nd + n0 + n)); [|exact I|exact Hm].
+    rewrite (stepn_add _ _ (nd + n0) n), (stepn_add _ _ nd n0), SD, Hn. exact Hs.
+  - destruct S as (n & s' & Hs & Hsc). exists (nd + n0 + n), s'. split; [|exact Hsc].
+    intros m Hm. apply (run_stepn_stop num_text is_negative (nd + n0 + n)); [|exact I|exact Hm].
+    rewrite (stepn_add _ _ (nd + n0) n), (stepn_add _ _ nd n0), SD, Hn. exact Hs.
   - exact I.
 Qed.
 
